@@ -307,50 +307,66 @@ func (e *c11env) requiredVar(fs *FuncSrc, v types.Object) (bool, string) {
 	why := ""
 	mt := e.p.Field("rtpconn", "clientMessage", "Type")
 	mk := e.p.Field("rtpconn", "clientMessage", "Kind")
-	ast.Inspect(fs.Body(), func(n ast.Node) bool {
-		as, isAs := n.(*ast.AssignStmt)
-		if !isAs {
-			return true
+	seenVars := map[types.Object]bool{}
+	var scan func(v types.Object, depth int)
+	scan = func(v types.Object, depth int) {
+		if seenVars[v] || depth > 4 {
+			return
 		}
-		for i, l := range as.Lhs {
-			id, isId := unparen(l).(*ast.Ident)
-			if !isId || info.ObjectOf(id) != v || i >= len(as.Rhs) {
-				continue
+		seenVars[v] = true
+		ast.Inspect(fs.Body(), func(n ast.Node) bool {
+			as, isAs := n.(*ast.AssignStmt)
+			if !isAs {
+				return true
 			}
-			s, isConst := constString(info, as.Rhs[i])
-			if !isConst {
-				ok, why = false, "assigned a non-constant at "+e.p.PosStr(as.Pos())
-				continue
-			}
-			switch s {
-			case "message":
-				sawMessage = true
-			case "caption":
-				st, _ := ff.At(as)
-				chat, capt := false, false
-				for _, f := range st.Facts() {
-					if f.Pos && f.Op == "eq" {
-						for _, pr := range [][2]*Term{{f.A, f.B}, {f.B, f.A}} {
-							if pr[0].K == 'c' && pr[1].K == 'f' {
-								if pr[0].Name == `"chat"` && pr[1].Obj == mt {
-									chat = true
-								}
-								if pr[0].Name == `"caption"` && pr[1].Obj == mk {
-									capt = true
+			for i, l := range as.Lhs {
+				id, isId := unparen(l).(*ast.Ident)
+				if !isId || info.ObjectOf(id) != v || i >= len(as.Rhs) {
+					continue
+				}
+				s, isConst := constString(info, as.Rhs[i])
+				if !isConst {
+					// a copy of another local that is itself only ever one of the two names
+					if rid, isR := unparen(as.Rhs[i]).(*ast.Ident); isR && len(as.Lhs) == len(as.Rhs) {
+						if u, isV := info.Uses[rid].(*types.Var); isV && !u.IsField() && u.Parent() != u.Pkg().Scope() {
+							scan(u, depth+1)
+							continue
+						}
+					}
+					ok, why = false, "assigned a non-constant at "+e.p.PosStr(as.Pos())
+					continue
+				}
+				switch s {
+				case "message":
+					sawMessage = true
+				case "caption":
+					st, _ := ff.At(as)
+					chat, capt := false, false
+					for _, f := range st.Facts() {
+						if f.Pos && f.Op == "eq" {
+							for _, pr := range [][2]*Term{{f.A, f.B}, {f.B, f.A}} {
+								if pr[0].K == 'c' && pr[1].K == 'f' {
+									if pr[0].Name == `"chat"` && pr[1].Obj == mt {
+										chat = true
+									}
+									if pr[0].Name == `"caption"` && pr[1].Obj == mk {
+										capt = true
+									}
 								}
 							}
 						}
 					}
+					if !chat || !capt {
+						ok, why = false, `"caption" is selected without Type=="chat" && Kind=="caption"`
+					}
+				default:
+					ok, why = false, "assigned "+s
 				}
-				if !chat || !capt {
-					ok, why = false, `"caption" is selected without Type=="chat" && Kind=="caption"`
-				}
-			default:
-				ok, why = false, "assigned "+s
 			}
-		}
-		return true
-	})
+			return true
+		})
+	}
+	scan(v, 0)
 	if ok && !sawMessage {
 		return false, `never defaults to "message"`
 	}
